@@ -21,10 +21,15 @@ type PolSpec struct {
 	Secure   bool     `json:"secure,omitempty"`
 	Allowed  []string `json:"allowed,omitempty"`
 	RL       bool     `json:"rl,omitempty"` // rate limiting with per-IP burst 1, 1 request/s
+	RLGen    bool     `json:"rl_generous,omitempty"` // rate limiting on, generous request limits, tight per-operation limits (mount, readdir, large I/O)
 }
 
 func (p PolSpec) policy() absnfs.PolicyOptions {
-	po := absnfs.PolicyOptions{ReadOnly: p.ReadOnly, Secure: p.Secure, AllowedIPs: p.Allowed, EnableRateLimiting: p.RL}
+	po := absnfs.PolicyOptions{ReadOnly: p.ReadOnly, Secure: p.Secure, AllowedIPs: p.Allowed, EnableRateLimiting: p.RL || p.RLGen}
+	if p.RLGen && !p.RL {
+		po.RateLimitConfig = &absnfs.RateLimiterConfig{GlobalRequestsPerSecond: 1000000, PerIPRequestsPerSecond: 100000, PerIPBurstSize: 100000,
+			PerConnectionRequestsPerSecond: 0, ReadLargeOpsPerSecond: 1, WriteLargeOpsPerSecond: 1, ReaddirOpsPerSecond: 1, MountOpsPerMinute: 1, CleanupInterval: time.Hour}
+	}
 	if p.RL {
 		po.RateLimitConfig = &absnfs.RateLimiterConfig{GlobalRequestsPerSecond: 1000, PerIPRequestsPerSecond: 1, PerIPBurstSize: 1,
 			PerConnectionRequestsPerSecond: 0, ReadLargeOpsPerSecond: 100, WriteLargeOpsPerSecond: 100, ReaddirOpsPerSecond: 100, MountOpsPerMinute: 600, CleanupInterval: time.Hour}
@@ -435,6 +440,8 @@ func genPol(r *simrt.Rand, rlOK bool) PolSpec {
 	}
 	if rlOK && r.Pct(25) {
 		p = PolSpec{ReadOnly: p.ReadOnly, RL: true}
+	} else if rlOK && r.Pct(15) {
+		p.RLGen = true
 	}
 	return p
 }
